@@ -13,7 +13,7 @@ DECIDES = ('(a) the state of DataPacketReceiver that raises packet_good raises g
            'and no strobe is raised without leaving; (d) per-byte valid bits are (remaining > i) & sink.valid, the CRC32 '
            'advance selects decode valid == 1111/0111/0011/0001, the remaining-byte counter is loaded from the '
            'header length field dw1[16:32] and decremented by 4 only while more than 4 remain; the trailing-CRC '
-           'reassembly cases take 4-k bytes from the previous word for k valid bytes. ')
+           'reassembly cases take 4-k bytes from the previous word for k valid bytes; the counter holds the maximum packet size 1024. ')
 NOT_DECIDED = 'value-level CRC equality (C30) and the payload byte stream contents.'
 V = 'self.sink.valid'
 
